@@ -85,7 +85,9 @@ Definition resolve (d : bytes) : option ip :=
   if (length d =? 255)%nat then None else
   if bytes_eqb d [50;48;51;46;48;46;49;49;51;46;55;55] then Some (V4 ip_203) else Some (V4 (v4 127 0 0 1)).
 
-Definition the_uenv (validate : bool) : uenv := {| ue_validate := validate; ue_resolve := resolve |}.
+(* OS oracle: the kernel refuses a UDP send to port 0 (EINVAL) *)
+Definition the_uenv (validate : bool) : uenv :=
+  {| ue_validate := validate; ue_resolve := resolve; ue_sendable := fun _ port => negb (port =? 0) |}.
 
 Definition dgram_of (e : env) (i : N) (k : dkind) : env * list wbyte :=
   match k with
